@@ -7,6 +7,7 @@ import XzVerif.Model.Proto
 import XzVerif.Model.Memusage
 import XzVerif.Model.MemusageBuild
 import XzVerif.Model.Memlimit
+import XzVerif.Model.MemlimitPre
 import XzVerif.Model.XzAdjust
 open XzVerif XzVerif.Proto XzVerif.Memusage XzVerif.Memlimit
 
@@ -157,30 +158,41 @@ def step (_ : Unit) (ws : List String) : Unit × String :=
         ((), s!"{if est.isSome then 1 else 8} {u64 est} | init={fmtList ini} all={fmtList all} group={B.szIndexGroup + INDEX_GROUP_SIZE * B.szIndexRecord}")
       | _, _, _ => ((), "bad-chain")
     else if op == "idx" then
-      match t.toNat?, parseSets bs, bytesOfHex (ws.getD 4 "") with
-      | some lim, some ss, some inp => ((), runIndex B lim ss inp)
+      match t.toNat?, parseSetsPre bs, bytesOfHex (ws.getD 4 "") with
+      | some lim, some (none, ss), some inp => ((), runIndex B lim ss inp)
+      | some lim, some (some pre, ss), some inp => ((), runIndexPre B lim pre ss inp)
       | _, _, _ => bad
     else bad
   | ["dec", kind, flags, limit, sets, _, hx] =>
-    match flags.toNat?, limit.toNat?, parseSets sets, bytesOfHex hx with
-    | some fl, some lim, some ss, some inp =>
+    match flags.toNat?, limit.toNat?, parseSetsPre sets, bytesOfHex hx with
+    | some fl, some lim, some (none, ss), some inp =>
       if kind == "xz" then ((), runXz B fl lim ss inp)
       else if kind == "alone" then ((), runAlone B lim ss inp)
       else if kind == "lzip" then ((), runLzip B fl lim ss inp)
       else if kind == "auto" then ((), runAuto B fl lim ss inp)
       else bad
+    | some fl, some lim, some (some pre, ss), some inp =>
+      -- create → lzma_memlimit_set()* → first lzma_code()
+      if kind == "xz" then ((), runXzPre B fl lim pre ss inp)
+      else if kind == "alone" then ((), runAlonePre B lim pre ss inp)
+      else if kind == "lzip" then ((), runLzipPre B fl lim pre ss inp)
+      else if kind == "auto" then ((), runAutoPre B fl lim pre ss inp)
+      else bad
     | _, _, _, _ => bad
   | ["decmt", _, flags, lt, ls, sets, _, hx] =>
-    match flags.toNat?, lt.toNat?, ls.toNat?, parseSets sets, bytesOfHex hx with
-    | some fl, some lt, some ls, some ss, some inp => ((), runXzMt B ((ws.getD 1 "1").toNat?.getD 1) fl lt ls ss inp)
+    match flags.toNat?, lt.toNat?, ls.toNat?, parseSetsPre sets, bytesOfHex hx with
+    | some fl, some lt, some ls, some (none, ss), some inp => ((), runXzMt B ((ws.getD 1 "1").toNat?.getD 1) fl lt ls ss inp)
+    | some fl, some lt, some ls, some (some pre, ss), some inp => ((), runXzMtPre B ((ws.getD 1 "1").toNat?.getD 1) fl lt ls pre ss inp)
     | _, _, _, _, _ => bad
   | ["decmts", _, thr, flags, lt, ls, sets, _, hx] =>
-    match flags.toNat?, lt.toNat?, ls.toNat?, parseSets sets, bytesOfHex hx with
-    | some fl, some lt, some ls, some ss, some inp => ((), runXzMt B (thr.toNat?.getD 1) fl lt ls ss inp)
+    match flags.toNat?, lt.toNat?, ls.toNat?, parseSetsPre sets, bytesOfHex hx with
+    | some fl, some lt, some ls, some (none, ss), some inp => ((), runXzMt B (thr.toNat?.getD 1) fl lt ls ss inp)
+    | some fl, some lt, some ls, some (some pre, ss), some inp => ((), runXzMtPre B (thr.toNat?.getD 1) fl lt ls pre ss inp)
     | _, _, _, _, _ => bad
   | ["decmtw", _, _, _, thr, flags, lt, ls, sets, _, hx] =>
-    match flags.toNat?, lt.toNat?, ls.toNat?, parseSets sets, bytesOfHex hx with
-    | some fl, some lt, some ls, some ss, some inp => ((), runXzMt B (thr.toNat?.getD 1) fl lt ls ss inp)
+    match flags.toNat?, lt.toNat?, ls.toNat?, parseSetsPre sets, bytesOfHex hx with
+    | some fl, some lt, some ls, some (none, ss), some inp => ((), runXzMt B (thr.toNat?.getD 1) fl lt ls ss inp)
+    | some fl, some lt, some ls, some (some pre, ss), some inp => ((), runXzMtPre B (thr.toNat?.getD 1) fl lt ls pre ss inp)
     | _, _, _, _, _ => bad
   | ["idxbuf", limit, hx] =>
     match limit.toNat?, bytesOfHex hx with
